@@ -4,6 +4,7 @@ import (
 	"fmt"
 	"go/types"
 	"sort"
+	"strings"
 )
 
 // State is the symbolic machine state at one program point.
@@ -16,10 +17,18 @@ type State struct {
 	Snap  map[string]*State // named snapshots (e.g. "lock")
 	Ghost map[string]Term   // ghost scalar variables (call counters etc.)
 	Defer []string          // keys of deferred-call flags (see exec)
+	Mix   *epochMix         // set when states with different epochs were merged
+}
+
+// epochMix: heap components untouched since a merge of differently-havocked states read as an
+// ite over the merged states' values.
+type epochMix struct {
+	pcs []Term
+	sts []*State
 }
 
 func (s *State) Clone() *State {
-	n := &State{PC: s.PC, Epoch: s.Epoch, Alloc: s.Alloc,
+	n := &State{PC: s.PC, Epoch: s.Epoch, Alloc: s.Alloc, Mix: s.Mix,
 		Vars: make(map[string]Val, len(s.Vars)), Heap: make(map[string]Term, len(s.Heap)),
 		Snap: make(map[string]*State, len(s.Snap)), Ghost: make(map[string]Term, len(s.Ghost))}
 	for k, v := range s.Vars {
@@ -42,6 +51,20 @@ func (s *State) Clone() *State {
 func (u *Unit) comp(s *State, name string, so Sort) Term {
 	if t, ok := s.Heap[name]; ok {
 		return t
+	}
+	if strings.HasPrefix(name, "GF$") {
+		// ghost fields are never changed by real code: a full havoc of the heap does not touch them
+		return u.Declare(fmt.Sprintf("%s@0", name), so)
+	}
+	if s.Mix != nil {
+		c := u.Declare(fmt.Sprintf("%s@%d", name, s.Epoch), so)
+		n := len(s.Mix.sts)
+		t := u.comp(s.Mix.sts[n-1], name, so)
+		for i := n - 2; i >= 0; i-- {
+			t = Ite(s.Mix.pcs[i], u.comp(s.Mix.sts[i], name, so), t)
+		}
+		u.emitOnce(fmt.Sprintf("(assert (= %s %s))", c.S, t.S))
+		return c
 	}
 	return u.Declare(fmt.Sprintf("%s@%d", name, s.Epoch), so)
 }
@@ -135,11 +158,15 @@ func (u *Unit) MergeStates(sts []*State, label string) *State {
 	}
 	out := &State{PC: u.Define(label, Or(pcs...)), Vars: map[string]Val{}, Heap: map[string]Term{},
 		Snap: map[string]*State{}, Ghost: map[string]Term{}}
-	// epoch: all must agree (a full havoc happens at loop heads only, which dominate)
+	// epochs: if the states were havocked differently, untouched components are mixed lazily
 	out.Epoch = sts[0].Epoch
+	out.Mix = sts[0].Mix
 	for _, s := range sts {
 		if s.Epoch != out.Epoch {
-			panic("merge: epoch mismatch")
+			epochCounter++
+			out.Epoch = epochCounter
+			out.Mix = &epochMix{pcs: pcs, sts: sts}
+			break
 		}
 	}
 	mergeTerm := func(name string, get func(*State) Term) Term {
